@@ -207,13 +207,14 @@ class Facts:
             if pt != R.PING:
                 continue
             blur = EPS - EPS0
-            if not any(t - EPS <= tp <= t + self.T + EPS for tp in pongs):
+            # (lower bound never blurred: a PONG cannot precede its PING)
+            if not any(t - EPS0 <= tp <= t + self.T + EPS for tp in pongs):
                 later = [tp for tp in pongs if tp > t + self.T + EPS]
                 out.append(_cause('silence', None, t + self.T, False,
                                   {'ping timeout', 'transport close',
                                    'transport error'},
                                   resumed=later[0] if later else None))
-            elif blur and not any(t - EPS <= tp <= t + self.T - blur
+            elif blur and not any(t - EPS0 <= tp <= t + self.T - blur
                                   for tp in pongs):
                 # stall run: a PONG this close to the deadline may or may
                 # not have been in time for the server
